@@ -110,6 +110,8 @@ type InputSpec struct {
 	Compiles []CompileStep `json:"compiles"`
 	Debug    bool          `json:"debug"`
 	LexAlone bool          `json:"lex_alone,omitempty"`
+	// LateTok: an observing token interceptor is installed on the shared lexer builder just before this input's Build
+	LateTok bool `json:"late_tok,omitempty"`
 	// Mode >= 0: just before this input's Build the shared builder is switched to tolerant = bit 0, smart = bit 1
 	// (parsers built earlier keep the modes they were built with)
 	Mode int `json:"mode"`
@@ -138,8 +140,10 @@ type JobSpec struct {
 	Recompiles []Recompile `json:"recompiles"`
 	// SecondPB: a second, plugin-free parser.Builder over the SAME lexer.Builder builds a parser for input 0
 	// after all the first builder's parsers were built
-	SecondPB bool     `json:"second_pb,omitempty"`
-	Shared   [][2]int `json:"shared,omitempty"` // (input, configuration) compiled in this order by one compiler per configuration
+	SecondPB bool `json:"second_pb,omitempty"`
+	// FirstCompileConcurrent: no part compiles anything; the trees meet their first compilations in the recompile tasks
+	FirstCompileConcurrent bool     `json:"first_compile_concurrent,omitempty"`
+	Shared                 [][2]int `json:"shared,omitempty"` // (input, configuration) compiled in this order by one compiler per configuration
 }
 
 var wordPool = []string{"OPA", "OPB", "OPC", "PRE", "POST", "PRF"}
@@ -267,6 +271,7 @@ func GenJob(seed uint64) *JobSpec {
 		}
 		in.Debug = ch.Bool(2, 3)
 		in.LexAlone = ch.Bool(1, 3)
+		in.LateTok = k > 0 && !plain && ch.Bool(1, 5)
 		in.Mode = -1
 		if k > 0 && ch.Bool(1, 3) {
 			// a real switch: at least one of the two modes changes
@@ -321,6 +326,24 @@ func GenJob(seed uint64) *JobSpec {
 			}
 			j.Shared = append(j.Shared, [2]int{ch.Choose(len(j.Inputs)), c})
 		}
+	}
+	if ch.Bool(1, 8) {
+		// the very first compilations of the job's trees happen in several tasks at once: nothing has been
+		// compiled, printed or dumped by a single task before (a lazily initialised field would be set then)
+		j.FirstCompileConcurrent = true
+		for k := range j.Inputs {
+			j.Inputs[k].Compiles, j.Inputs[k].Debug, j.Inputs[k].Reconf = nil, false, nil
+		}
+		j.Shared = nil
+		cfgA, cfgB := ch.Choose(ncfg), ch.Choose(ncfg)
+		for r := 0; r < 2+ch.Choose(2); r++ {
+			var rc Recompile
+			for k := range j.Inputs {
+				rc.Pairs = append(rc.Pairs, [2]int{k, []int{cfgA, cfgB}[(r+k)%2]})
+			}
+			j.Recompiles = append(j.Recompiles, rc)
+		}
+		return j
 	}
 	for r, n := 0, ch.Weighted(3, 2, 2, 1); r < n; r++ {
 		var rc Recompile
@@ -557,6 +580,7 @@ type jobRun struct {
 	// curLimit: pull limit for lexers created by the Build in progress
 	curLimit int
 	twin     bool
+	lateToks int // token interceptors installed after setup
 	// modeOverride >= 0 (twin builders): the modes the builder is given once, at creation
 	modeOverride int
 	curTlog      *tlog // token log of the lexer created by the Build in progress
@@ -661,6 +685,11 @@ func RunJob(spec *JobSpec, env Env, full bool) *JobResult {
 			pan := guard(func() { j.types[in.LateName] = j.b.lb.RegisterTokenType(in.LateName) })
 			main.put(fmt.Sprintf("in%d/late-name", k), fmt.Sprintf("%d %s", j.types[in.LateName], pan))
 			j.register(main, fmt.Sprintf("in%d/late-op", k), *in.LateOp)
+		}
+		if in.LateTok {
+			env.Yield(sStep)
+			j.lateToks++
+			j.addTokIcpt(len(spec.TokIcpts)+j.lateToks-1, IcptSpec{Kind: 1, Every: 1})
 		}
 		if in.Mode >= 0 {
 			env.Yield(sStep)
@@ -884,25 +913,7 @@ func (j *jobRun) setup(s *sink) {
 	for i, ic := range spec.TokIcpts {
 		i, ic := i, ic
 		env.Yield(sStep)
-		install(func() {
-			lb.UseTokenInterceptor(func(l *lexer.Lexer, next func() token.Token) token.Token {
-				tl := j.tlogOf(l)
-				tl.n[i]++
-				tl.h = kernel.Mix(tl.h, 0xA0|uint64(i))
-				act := tl.n[i]%ic.Every == 0
-				if act {
-					env.Yield(sTokPre)
-				}
-				t := next()
-				if ic.Kind == 1 {
-					tl.h = mixTok(kernel.Mix(tl.h, uint64(l.Line)<<16^uint64(l.Column)), t)
-				}
-				if act {
-					env.Yield(sTokPost)
-				}
-				return t
-			})
-		})
+		install(func() { j.addTokIcpt(i, ic) })
 	}
 	for i, ic := range spec.StmtIcpts {
 		i, ic := i, ic
@@ -968,6 +979,28 @@ func (j *jobRun) setup(s *sink) {
 		env.Yield(sStep)
 		j.register(s, fmt.Sprintf("a-reg/op%02d", i), op)
 	}
+}
+
+// addTokIcpt installs the job's i-th token interceptor on its lexer builder (at setup, or later between two builds).
+func (j *jobRun) addTokIcpt(i int, ic IcptSpec) {
+	env := j.env
+	j.b.lb.UseTokenInterceptor(func(l *lexer.Lexer, next func() token.Token) token.Token {
+		tl := j.tlogOf(l)
+		tl.n[i]++
+		tl.h = kernel.Mix(tl.h, 0xA0|uint64(i))
+		act := tl.n[i]%ic.Every == 0
+		if act {
+			env.Yield(sTokPre)
+		}
+		t := next()
+		if ic.Kind == 1 {
+			tl.h = mixTok(kernel.Mix(tl.h, uint64(l.Line)<<16^uint64(l.Column)), t)
+		}
+		if act {
+			env.Yield(sTokPost)
+		}
+		return t
+	})
 }
 
 func b2u(b bool) uint64 {
@@ -1177,6 +1210,10 @@ func (j *jobRun) twinParse(k int) (parseText, obs string) {
 	scratch := &sink{}
 	t.setup(scratch)
 	for i := 1; i <= k; i++ {
+		if j.spec.Inputs[i].LateTok {
+			t.lateToks++
+			t.addTokIcpt(len(j.spec.TokIcpts)+t.lateToks-1, IcptSpec{Kind: 1, Every: 1})
+		}
 		if in := &j.spec.Inputs[i]; in.LateName != "" {
 			guard(func() { t.types[in.LateName] = t.b.lb.RegisterTokenType(in.LateName) })
 			t.register(scratch, "late", *in.LateOp)
